@@ -167,3 +167,77 @@ Proof.
     [eat_gets; try (right; reflexivity); left; eexists; eexists; reflexivity|].
   right; reflexivity.
 Qed.
+
+(* ---- no over-read: the octets consumed are a 2..6 octet prefix, the payload is what follows *)
+
+Ltac eat_gets_in H :=
+  repeat match type of H with
+  | context [get ?l] => is_var l; destruct l; cbn [get getz bind fst snd] in H
+  | context [getz ?l] => is_var l; destruct l; cbn [get getz bind fst snd] in H
+  end.
+
+(* the branch structure of the decoder, as an inversion principle *)
+Lemma dec_shape bs a r : dec_apci bs = Ok (a, r) ->
+  exists hd, bs = hd ++ r /\ (2 <= length hd <= 6)%nat.
+Proof.
+  unfold dec_apci. destruct bs as [|buff t]; cbn [get bind]; [discriminate|].
+  cbv zeta. intros H.
+  Ltac leaf H := eat_gets_in H; try discriminate; injection H as _ <-;
+    match goal with |- exists hd, ?l = _ /\ _ =>
+      first [ exists (firstn 2 l); split; [reflexivity | cbn; lia]
+            | exists (firstn 3 l); split; [reflexivity | cbn; lia]
+            | exists (firstn 4 l); split; [reflexivity | cbn; lia]
+            | exists (firstn 5 l); split; [reflexivity | cbn; lia]
+            | exists (firstn 6 l); split; [reflexivity | cbn; lia] ] end.
+  destruct (N.land (N.shiftr buff 4) 15 =? 0); [destruct (truthy (bit buff 8)); leaf H|].
+  destruct (N.land (N.shiftr buff 4) 15 =? 1); [leaf H|].
+  destruct (N.land (N.shiftr buff 4) 15 =? 2); [leaf H|].
+  destruct (N.land (N.shiftr buff 4) 15 =? 3); [destruct (truthy (bit buff 8)); leaf H|].
+  destruct (N.land (N.shiftr buff 4) 15 =? 4); [leaf H|].
+  destruct (N.land (N.shiftr buff 4) 15 =? 5); [leaf H|].
+  destruct (N.land (N.shiftr buff 4) 15 =? 6); [leaf H|].
+  destruct (N.land (N.shiftr buff 4) 15 =? 7); [leaf H|].
+  discriminate.
+Qed.
+
+
+
+(* an unsegmented confirmed request / complex ack does not put sequence number and window size
+   on the wire, whatever the attributes hold *)
+Lemma enc_ignores_seq_win a sq wn : truthy (aSeg a) = false ->
+  (aType a = Some 0%Z \/ aType a = Some 3%Z) ->
+  enc_apci (with_seq_win a sq wn) = enc_apci a.
+Proof.
+  intros S [T|T]; unfold enc_apci, with_seq_win;
+    cbn [aType aSeg aMor aSA aSrv aNak aSeq aWin aMaxSegs aMaxResp aService aInvokeID aReason];
+    rewrite T, S; reflexivity.
+Qed.
+
+(* the octet writer refuses exactly what does not fit an octet *)
+Lemma putz_refuses z : (z < 0 \/ 255 < z)%Z -> putz z = Err ValueErr.
+Proof. intros H. unfold putz. destruct ((0 <=? z)%Z && (z <? 256)%Z) eqn:E; [lia|reflexivity]. Qed.
+
+Lemma putz_ok z bs : putz z = Ok bs -> (0 <= z < 256)%Z /\ bs = [Z.to_N z].
+Proof.
+  unfold putz. destruct ((0 <=? z)%Z && (z <? 256)%Z) eqn:E; [|discriminate].
+  intros H; injection H as <-. split; [lia|reflexivity].
+Qed.
+
+(* no PDU type outside 0..7 is ever encoded *)
+Lemma enc_invalid_type a :
+  (forall k, (0 <= k <= 7)%Z -> aType a <> Some k) -> enc_apci a = Err ValueErr.
+Proof.
+  intros H. unfold enc_apci. destruct (aType a) as [z|]; [|reflexivity].
+  destruct z as [|p|p]; [exfalso; apply (H 0%Z); [lia|reflexivity] | | reflexivity].
+  destruct p as [[[?|?|]|[?|?|]|]|[[?|?|]|[?|?|]|]|]; try reflexivity;
+    exfalso; (eapply H; [|reflexivity]); lia.
+Qed.
+
+(* different (well-formed) headers or payloads never share an encoding *)
+Lemma spec_injective h1 p1 h2 p2 : wf_hdr h1 = true -> wf_hdr h2 = true ->
+  spec20_1 h1 ++ p1 = spec20_1 h2 ++ p2 -> to_apci h1 = to_apci h2 /\ p1 = p2.
+Proof.
+  intros W1 W2 E.
+  pose proof (hdr_decode h1 p1 W1) as D1. pose proof (hdr_decode h2 p2 W2) as D2.
+  rewrite E in D1. rewrite D1 in D2. injection D2 as -> ->. split; reflexivity.
+Qed.
